@@ -97,6 +97,55 @@ impl LibraryRenderer {
 }
 
 impl LibraryRenderer {
+    /// Writes one declaration of a variable block: the name or address, the
+    /// type with its initial value and the terminating semicolon.
+    fn visit_var_decl_item(&mut self, node: &VarDecl) -> Result<(), Diagnostic> {
+        match &node.identifier {
+            VariableIdentifier::Symbol(id) => {
+                self.visit_id(id)?;
+            }
+            VariableIdentifier::Direct(direct) => {
+                self.visit_direct_variable_identifier(direct)?;
+            }
+        }
+
+        self.write_ws(":");
+        self.visit_initial_value_assignment_kind(&node.initializer)?;
+
+        self.write(";");
+        self.newline();
+        Ok(())
+    }
+
+    /// Writes the global variables of a configuration or resource. The
+    /// syntax allows a single VAR_GLOBAL block there, so all the variables
+    /// go into one block.
+    fn visit_global_var_decls(&mut self, vars: &[VarDecl]) -> Result<(), Diagnostic> {
+        let first = match vars.first() {
+            Some(first) => first,
+            None => return Ok(()),
+        };
+
+        self.write_ws("VAR_GLOBAL");
+        match first.qualifier {
+            DeclarationQualifier::Unspecified => {}
+            DeclarationQualifier::Constant => self.write_ws("CONSTANT"),
+            DeclarationQualifier::Retain => self.write_ws("RETAIN"),
+            DeclarationQualifier::NonRetain => self.write_ws("NON_RETAIN"),
+        }
+        self.newline();
+
+        self.indent();
+        for var in vars.iter() {
+            self.visit_var_decl_item(var)?;
+        }
+        self.outdent();
+
+        self.write_ws("END_VAR");
+        self.newline();
+        Ok(())
+    }
+
     /// Writes the steps before or after a transition: a single step name, or
     /// a parenthesized list of two or more step names.
     fn visit_transition_steps(&mut self, steps: &[Id]) -> Result<(), Diagnostic> {
@@ -569,20 +618,7 @@ impl Visitor<Diagnostic> for LibraryRenderer {
         self.newline();
 
         self.indent();
-        match &node.identifier {
-            VariableIdentifier::Symbol(id) => {
-                self.visit_id(id)?;
-            }
-            VariableIdentifier::Direct(direct) => {
-                self.visit_direct_variable_identifier(direct)?;
-            }
-        }
-
-        self.write_ws(":");
-        self.visit_initial_value_assignment_kind(&node.initializer)?;
-
-        self.write(";");
-        self.newline();
+        self.visit_var_decl_item(node)?;
         self.outdent();
 
         self.write_ws("END_VAR");
@@ -1024,16 +1060,14 @@ impl Visitor<Diagnostic> for LibraryRenderer {
         self.newline();
 
         self.indent();
+        self.visit_global_var_decls(&node.global_vars)?;
+
         for task in node.tasks.iter() {
             self.visit_task_configuration(task)?;
         }
 
         for program in node.programs.iter() {
             self.visit_program_configuration(program)?;
-        }
-
-        for var in node.global_vars.iter() {
-            self.visit_var_decl(var)?;
         }
 
         self.outdent();
@@ -1156,6 +1190,7 @@ impl Visitor<Diagnostic> for LibraryRenderer {
         self.newline();
 
         self.indent();
+        self.visit_global_var_decls(&node.global_var)?;
         for res in node.resource_decl.iter() {
             self.visit_resource_declaration(res)?;
         }
